@@ -23,6 +23,7 @@ type Frame struct {
 	fn       *ssa.Function
 	contract *Contract
 	curFn    Val // function value of the field call being applied (fnval in field contracts)
+	pendingCall *ssa.CallCommon // the external call being abstracted (abstractCall's fallback needs its operands)
 	vals     map[ssa.Value]Val
 	endCur   map[int]string // path condition at end of block
 	endHeap  map[int]*Heap
@@ -928,6 +929,10 @@ func (f *Frame) storeInstr(x *ssa.Store, st *state) {
 		u.inexact = true
 		u.note("store of interior pointer in " + f.fname)
 		v.T = u.fresh("locval", "Int")
+		if v.Addr {
+			// the address of a variable, field or element is never nil
+			u.emit("(assert (not (= " + v.T + " 0)))")
+		}
 	}
 	if !l.Local {
 		f.frameCheckRef(st, x, l.Arr, l.Key, "store")
